@@ -229,6 +229,61 @@ def n4(ctx, rep, T, be, struct, fns, prefixed):
                         rep.fail('N4', f"{be}:{g['name']}:{c['f']}:empty-generics", f"{be}: {g['qual']} passes `&[]` as generic context to {c['f']} although the item has generic_types — a generic parameter would be prefixed like a user type", {'file': g['file'], 'line': c.get('line')})
 
 
+def same_owner(generics_v, types_v):
+    """Is `generics_v` the `generic_types` of a value X and does `types_v` derive from that same X (a field, an element of a
+    field, a variant payload ...)?  Compared on canonical keys, so local names and or-pattern bindings do not matter."""
+    g = vt.unvar(generics_v)
+    while isinstance(g, dict) and g.get('k') in ('ref', 'deref', 'paren'):
+        g = vt.unvar(g.get('v'))
+    bases = []
+    if isinstance(g, dict) and g.get('k') == 'atom' and g.get('path') and g['path'][-1] == 'generic_types':
+        bases.append(('atom', g.get('root'), tuple(g['path'][:-1])))
+    if isinstance(g, dict) and g.get('k') == 'field' and g.get('name') == 'generic_types':
+        bases.append(('key', vt.ckey(g.get('base'))))
+    if not bases:
+        return False
+    for x in vt.walk(types_v):
+        if x.get('k') == 'atom':
+            for b in bases:
+                if b[0] == 'atom' and x.get('root') == b[1] and tuple(x.get('path', [])[:len(b[2])]) == b[2]:
+                    return True
+        for b in bases:
+            if b[0] == 'key' and vt.ckey(x) == b[1]:
+                return True
+    # an or-pattern binding (`let (A(shared) | B { shared, .. }) = e`) is recorded as the payload of the first alternative:
+    # compare modulo the variant the payload was taken from
+    def loose(v):
+        import re as _re
+        return _re.sub(r'"variant": "[^"]*"', '"variant": "*"', _re.sub(r'"(field|pos)": "?[A-Za-z0-9_]*"?', '"pos": "*"', vt.ckey(v)))
+    for b in bases:
+        if b[0] == 'key':
+            lb = _loose_base(g.get('base'))
+            if lb and any(_loose_base(x) == lb for x in vt.walk(types_v)):
+                return True
+    return False
+
+
+def _loose_base(v):
+    """Canonical key of `payload-of(X)` ignoring which variant / position the payload was taken from."""
+    import re as _re
+    v = vt.unvar(v)
+    if not isinstance(v, dict):
+        return None
+    if v.get('k') == 'payload':
+        return 'payload-of:' + vt.ckey(v.get('of'))
+    return None
+
+
+def variant_walker(ctx):
+    """The function of reconcile.rs that walks the variants of an enum and hands their payload types to check_type — found by
+    what it does (a match over RustEnumVariant with check_type calls), whatever it is called."""
+    from .. import coverage
+    cands = [g for g in ctx.astq['functions'] if g['file'].endswith('reconcile.rs') and coverage.find_matches(g, 'RustEnumVariant') and any(c.get('f') == 'check_type' for c in g['calls'])]
+    if len(cands) != 1:
+        raise core.Incomplete(f'reconcile.rs: the function that walks enum variants (match over RustEnumVariant + check_type) expected once, found {len(cands)}')
+    return cands[0]
+
+
 def id_assigned(fx, full):
     """Some assignment in (the inlined view of) check_type targets the `id` payload of RustType::<full> — bound by a
     match arm, or by an `if let A { id, .. } | B { id } = ty` whose alternatives include the variant."""
@@ -243,6 +298,9 @@ def id_assigned(fx, full):
         for fr in asg.get('guard', []):
             c = fr.get('c') if fr.get('k') == 'if' and not fr.get('neg') else None
             if isinstance(c, dict) and c.get('k') == 'iflet' and full in (c.get('variants') or []) and str(t.get('variant', '')) in (c.get('variants') or []):
+                return True
+            # `A { id, .. } | B { id } => ..` as a match arm: the binding stands for the payload of every alternative
+            if fr.get('k') == 'arm' and full in (fr.get('variants') or []) and str(t.get('variant', '')) in (fr.get('variants') or []):
                 return True
     return False
 
@@ -303,23 +361,21 @@ def n3_match(ctx, rep, f, fx, m_rt, rt, sp, site):
             assigned = id_assigned(fx, f"RustType::{var['name']}")
             bound = assigned
             rep.check(bound and assigned, 'N3', key + ':id-rewritten', 'id position rewritten', f"reconcile::check_type never rewrites RustType::{var['name']}.id — a reference `{var['name']}` to a serde(rename)d generic type keeps the original name while its definition is renamed", site)
-    # special payloads
-    m_sp = [mm for mm in f['matches'] if any(v.startswith('SpecialRustType::') for a in mm['arms'] for v in a['variants'])]
-    if not m_sp:
-        raise core.Incomplete('check_type: match over SpecialRustType not found')
-    msp = m_sp[0]
+    # special payloads: by dataflow — for every type-carrying payload position of every SpecialRustType variant some recursive
+    # call, made under an arm that names the variant (nested or-patterns and `RustType::Special(SpecialRustType::X(..))` alike),
+    # receives a value derived from that payload
+    from .. import coverage
     for var in sp['variants']:
         payload = [fl for fl in var['fields'] if 'RustType' in fl['ty']]
         if not payload:
             continue
         key = f"check_type:SpecialRustType::{var['name']}"
-        arms = [a for a in msp['arms'] if f"SpecialRustType::{var['name']}" in a['variants']]
-        if not arms:
+        named = any(re.search(rf"SpecialRustType::{var['name']}\b", v) for mm in f['matches'] for a in mm['arms'] for v in a['variants'])
+        if not named:
             rep.fail('N3', key, f"reconcile::check_type does not descend into SpecialRustType::{var['name']} (falls into the catch-all) — references inside it are never renamed", site)
             continue
-        a = arms[0]
-        rec = [c for c in a['calls'] if c.get('f') == 'check_type']
-        rep.check(len(rec) >= len(payload), 'N3', key, f'{len(rec)} recursive call(s) for {len(payload)} payload type(s)', f"reconcile::check_type recurses {len(rec)} time(s) into SpecialRustType::{var['name']} which carries {len(payload)} type payload(s)", site)
+        got = sum(1 for fl in payload if coverage.flows(ctx, f, 'SpecialRustType', var['name'], fl['name'], ['check_type']))
+        rep.check(got >= len(payload), 'N3', key, f'{got} of {len(payload)} payload type(s) handed to the recursion', f"reconcile::check_type recurses into {got} of the {len(payload)} type payload(s) of SpecialRustType::{var['name']}", site)
 
 
 def n6(ctx, rep):
@@ -369,14 +425,15 @@ def n6(ctx, rep):
         guarded_all = guarded_all and ok
     rep.check(n_rewrites > 0 and guarded_all, 'N6', 'check_type:generic-parameters-skipped', 'a Simple id is rewritten only when it is not a generic parameter', "reconcile::check_type rewrites a simple type name without first excluding the generic parameters of the enclosing item: `value: T` in `Wrapper<T>` becomes `value: Token` when some type T carries serde(rename = \"Token\")", site)
     # (b) callers
-    gix = [p_['name'] for p_ in f['params']].index(gps[0])
+    gix = [p_['name'] for p_ in f['params'] if p_['name'] != 'self'].index(gps[0])
     ra = ctx.fnx('reconcile_aliases', file='reconcile.rs')
-    cv = ctx.fn('check_variant', file='reconcile.rs')
-    cvp = [p_['name'] for p_ in cv['params']]
-    cv_g = next((i for i, p_ in enumerate(cv['params']) if (p_.get('ty') or '').replace(' ', '').replace('&', '') in ('[String]', 'Vec<String>')), None)
+    cv = variant_walker(ctx)
+    cvname = cv['name'].split('::')[-1]
+    cvp = [p_['name'] for p_ in cv['params'] if p_['name'] != 'self']
+    cv_g = next((i for i, p_ in enumerate([q for q in cv['params'] if q['name'] != 'self']) if (p_.get('ty') or '').replace(' ', '').replace('&', '') in ('[String]', 'Vec<String>')), None)
     for g, fn_ in ((ra, 'reconcile_aliases'), (cv, 'check_variant')):
         for c in g['calls']:
-            if c.get('f') not in ('check_type', 'check_variant'):
+            if c.get('f') not in ('check_type', cvname):
                 continue
             ix = gix if c['f'] == 'check_type' else cv_g
             csite = {'file': g['file'], 'line': c.get('line')}
@@ -389,9 +446,7 @@ def n6(ctx, rep):
             if fn_ == 'check_variant':
                 okc = ga == cvp[cv_g] if cv_g is not None else False
             elif ga.endswith('.generic_types'):
-                owner = ga[:-len('.generic_types')]
-                okc = ta.startswith(owner) or ta.replace('each(', '', 1).startswith(owner)
-                okc = okc or owner in ta
+                okc = same_owner(c['args'][ix], c['args'][-1])
             else:
                 okc = ga in ('[]', '&[]') and '.consts)' in ta
             rep.check(okc, 'N6', key + ':generic-context', f'generic context {ga[-50:]}', f"{fn_} passes `{ga[-60:]}` as generic context for the types `{ta[-60:]}` — expected the generic_types of the same item (an empty list only for constants): generic parameters of that item are rewritten like type references", csite)
@@ -414,10 +469,11 @@ def n3(ctx, rep):
         n3_match(ctx, rep, f, fx, m_rt, rt, sp, site)
     # every type-bearing field of every item kind is passed to check_type
     ra = ctx.fnx('reconcile_aliases', file='reconcile.rs')
-    cv = ctx.fn('check_variant', file='reconcile.rs')
+    cv = variant_walker(ctx)
+    cvname = cv['name'].split('::')[-1]
     # the rewriter runs for every crate and every item: only loops may enclose it, never a condition
     for c in ra['calls']:
-        if c.get('f') in ('check_type', 'check_variant'):
+        if c.get('f') in ('check_type', cvname):
             conds = [fr for fr in c['guard'] if fr.get('k') == 'if']   # arms over RustEnum are the dispatch, not a condition
             rep.check(not conds, 'N3', f"reconcile_aliases:{c['f']}:unconditional:{vt.show(c['args'][-1])[-24:] if c.get('args') else ''}", 'applied to every crate/item', f"reconcile_aliases applies {c['f']} only under `{('!' if conds and conds[0].get('neg') else '') + (vt.show(conds[0].get('c'))[:80] if conds else '')}`: references in the crates/items excluded by that test keep the original name of a serde(rename)d type while its definition is renamed (e.g. a crate that imports a renamed type but renames nothing itself)", {'file': ra['file'], 'line': c.get('line')})
     texts = [json.dumps(c.get('args', [])) for c in ra['calls'] + cv['calls'] if c.get('f') == 'check_type']
@@ -425,7 +481,7 @@ def n3(ctx, rep):
     for what, needle in needed.items():
         ok = any(needle in t for t in texts)
         rep.check(ok, 'N3', f'reconcile_aliases:{what}', 'passed to check_type', f'reconcile_aliases never applies check_type to {what}: references from there to a serde(rename)d type keep the original name', {'file': ra['file'], 'line': ra['line']})
-    ok = any(c.get('f') == 'check_variant' for c in ra['calls'])
+    ok = any(c.get('f') == cvname for c in ra['calls'])
     rep.check(ok, 'N3', 'reconcile_aliases:enum variants', 'check_variant called', 'reconcile_aliases does not visit enum variants', {'file': ra['file'], 'line': ra['line']})
     ev = ctx.item('enum', 'RustEnumVariant')
     mv = [mm for mm in cv['matches'] if any(v.startswith('RustEnumVariant::') for a in mm['arms'] for v in a['variants'])]
